@@ -657,6 +657,16 @@ func (d *c13Driver) randomExpr(scope int, reach []int) []byte {
 		x = append(x, byte(rng.Intn(256)))
 	case 5:
 		x = append(x, 0)
+	case 6, 7: // the prefixes followed by a dual/multi-name prefix byte and no name at all
+		x = append([]byte{}, prefix...)
+		switch rng.Intn(3) {
+		case 0:
+			x = append(x, 0x2e)
+		case 1:
+			x = append(x, 0x2f)
+		default:
+			x = append(x, 0x2f, []byte{0, 1, 2, 65, byte(rng.Intn(256))}[rng.Intn(5)])
+		}
 	}
 	return x
 }
